@@ -301,12 +301,15 @@ class ValueGen:
         self.rng = rng
         self.plain = plain_strings
         self.free_optionals = free_optionals     # optional fields independently None (any object the constructor accepts)
+        self.all_ff = False                      # obj_ff: every string is made of y-diaeresis only (the break byte unless sanitised)
         self.minimal = False                     # obj_minimal: every optional absent, every free-length string / array as short as its declaration allows
 
     def gstr(self, n=None, maxn=6, chunked=False):
         rng = self.rng
         if n is None:
             n = 0 if self.minimal else rng.choice([0, 1, 2, 3, rng.randrange(0, maxn + 1)])
+        if self.all_ff:
+            return [0xFF] * n
         pool = [0x41, 0x62, 0x20, 0x79, 0x50, 0x4F, 0x22, 0x7D, 0xE9] if self.plain else EDGE_STR
         return [rng.choice(pool) if rng.random() < 0.6 else rng.randrange(0x21, 0x7E) for _ in range(n)]
 
@@ -333,6 +336,14 @@ class ValueGen:
         if k == 'struct':
             return self.obj(ty['name'], self.R.structs[ty['name']]['body'], depth + 1)
         raise ValueError(ty)
+
+    def obj_ff(self, cls, body):
+        """an instance of cls all of whose strings consist of y-diaeresis: wherever sanitisation is due it shows, wherever it is not it shows too"""
+        self.all_ff = True
+        try:
+            return self.obj(cls, body)
+        finally:
+            self.all_ff = False
 
     def obj_minimal(self, cls, body):
         """the instance of cls that writes as little as its declaration allows (optionals absent, free-length strings and arrays empty)"""
